@@ -242,6 +242,65 @@ def maybe_empty_carrier(ctx, core, reg):
                   backend="BV", assumes="Result::map_err keeps the discriminant", witness=True, outside="MaybeEmpty::deserialize (empty slice -> Empty)")
 
 
+def maybe_empty_deserialize(ctx, core, reg):
+    """<MaybeEmpty<T> as DeserializeValue>::deserialize: null -> Err, 0 bytes -> Empty without consulting T, otherwise T's verdict."""
+    from . import smt_c16de as de
+    name = "c17_maybe_empty_reads_zero_bytes_as_empty_and_everything_else_through_the_carrier"
+    if ctx.skip(name):
+        return
+    me = reg.get("MaybeEmpty")
+    fn = core.find_by_callee("<MaybeEmpty<T> as DeserializeValue>::deserialize")
+    typ, kind, nat, pre, refused = symbolic_column_type(reg)
+    is_null, t_ok, ln = z3.Bool("cell_is_null"), z3.Bool("carrier_deserializes"), z3.BitVec("cell_length", 32)
+    pre = pre + [ln >= 0]
+    m = {}
+    m.update(sm.SLICE_MODELS)
+    m[r"^(std::result::)?Result::<FrameSlice<'_>, DeserializationError>::map::<"] = lambda it, p, c, a: a[0]      # the closure is FrameSlice::as_slice: same length
+    m[r"^<\{closure@.*\} as Fn(Mut|Once)?<.*>>::call(_mut|_once)?$"] = de.m_closure_call
+    m[r"^Option::<.*>::ok_or_else::<"] = lambda it, p, c, a: Enum(Int(z3.If(a[0].discr.t == 1, bv(0, 64), bv(1, 64)), 64, True),
+                                                                 {0: a[0].payloads[1], 1: Tup([Opaque("null-error")])}, RESULT, "Result")
+    m[r"^<(std::result::)?Result<.*> as Try>::branch$"] = sm.m_result_branch
+    m[r" as FromResidual<(std::result::)?Result<(std::convert::)?Infallible, .*>>>::from_residual$"] = sm.m_result_from_residual
+    m[r"^FrameSlice::<'_>::as_slice$"] = lambda it, p, c, a: sm.deref(a[0])
+    m[r"^core::slice::<impl \[u8\]>::is_empty$"] = lambda it, p, c, a: Bool((sm.deref(a[0]) if isinstance(a[0], Ref) else a[0]).f[0].t == 0)
+    m[r"mk_deser_err::<"] = sm.m_opaque("deser-error")
+    m[r"^(std::result::)?Result::<.*>::map_err::<"] = lambda it, p, c, a: Enum(a[0].discr, {**a[0].payloads, 1: Tup([Opaque("mapped-error")])}, RESULT, "Result")
+    m[r"^<T as DeserializeValue<'_, '_>>::deserialize$"] = lambda it, p, c, a: Enum(Int(z3.If(t_ok, bv(0, 64), bv(1, 64)), 64, True), {0: Tup([Opaque("carrier-value")]), 1: Tup([Opaque("deser-error")])}, RESULT, "Result")
+    cell = Enum(Int(z3.If(is_null, bv(0, 64), bv(1, 64)), 64, True), {1: Tup([Tup([Int(ln, 32, True)], "FrameSlice")])}, OPTION, "Option")
+    it = mir.Interp(core, mir.BVBackend(), m, inline=[r"ensure_not_null_(frame_)?slice", r"ensure_not_null_slice::\{closure#0\}"], registry=reg, max_steps=6000)
+    paths = it.run(fn, [Ref(Cell(typ)), cell], pre)
+    goals, cover = [], []
+    for p in paths:
+        pc = z3.And(p.pc[len(pre):]) if len(p.pc) > len(pre) else z3.BoolVal(True)
+        if p.outcome[0] != "return":
+            goals.append(z3.Not(pc)); continue
+        cover.append(pc)
+        r = p.outcome[1]
+        inner = r.payloads[0].f[0].discr.t if 0 in r.payloads and isinstance(r.payloads[0].f[0], Enum) else None
+        is_empty = (inner == me.discr("Empty")) if inner is not None else z3.BoolVal(False)
+        is_val = (inner == me.discr("Value")) if inner is not None else z3.BoolVal(False)
+        goals.append(z3.Implies(pc, z3.And(
+            z3.Implies(is_null, r.discr.t == 1),
+            z3.Implies(z3.And(z3.Not(is_null), ln == 0), z3.And(r.discr.t == 0, is_empty)),
+            z3.Implies(z3.And(z3.Not(is_null), ln != 0), z3.And((r.discr.t == 0) == t_ok, z3.Implies(r.discr.t == 0, is_val))))))
+    goals.append(z3.Or(cover) if cover else z3.BoolVal(False))
+    ctx.prove(name, pre, z3.And(goals), inputs=[kind, nat, is_null, ln, t_ok],
+              functions="<MaybeEmpty<T> as DeserializeValue>::deserialize, ensure_not_null_slice, ensure_not_null_frame_slice [scylla-cql-core/src/deserialize/value.rs]",
+              bounds="any column type, the cell null or of ANY length (symbolic i32 >= 0), the carrier's deserialize most general (Ok or Err): a null cell is an error, a 0-byte cell is "
+                     "MaybeEmpty::Empty whatever the carrier would say, any other cell is Value(carrier's value) exactly when the carrier accepts it and its error otherwise; no panic",
+              backend="BV", assumes="FrameSlice and the slice taken from it = their length (as in C16; Result::map(as_slice) keeps it); Option::ok_or_else / map_err keep the discriminant", witness=True, outside="the carriers themselves (engine K / C01)",
+              replay=replay_empty_de)
+
+
+def replay_empty_de(m):
+    """native: an int column read as MaybeEmpty<i32> — null, 0 bytes, a well-formed and a malformed cell (the model says which of them the solver chose; all four are run)"""
+    from . import native
+    nat = native.Native("core")
+    want = {"null": "ERR", "-": "EMPTY", "0000002a": "VALUE 42", "00002a": "ERR"}
+    got = {c: nat.ask(f"emptyde {c}") for c in want}
+    nat.close()
+    return native.record("C17", "maybe_empty_deserialize", {"model": {k: str(v) for k, v in m.items()}, "expected": want, "native": got}, got != want)
+
 def replay_empty(m, ct, nt):
     from . import native
     k, n = int(m.get("column_type_variant") or 0), int(m.get("native_type") or 0)
@@ -274,6 +333,7 @@ def run(tier, seed, only):
         reg = rustenum.Registry(["/repo/" + RESULT_RS, "/repo/scylla-cql-core/src/value.rs"])
         empty_support(ctx, core, reg)
         maybe_empty_carrier(ctx, core, reg)
+        maybe_empty_deserialize(ctx, core, reg)
     except mir.Unsupported as e:
         ctx.add(name="smt:c17_translate_empty_support", engine="smt:mir2smt", status="inconclusive", reason="translator rejected the current source: " + str(e), functions=RESULT_RS)
     except (AttributeError, KeyError, IndexError, TypeError, ValueError) as e:
